@@ -96,7 +96,10 @@ pub fn expr_to_source(spanned_expr: &SpannedExpr) -> String {
                     result.push_str(&format!("\n  {}", comment));
                 }
                 // Expression
-                result.push_str(&format!("\n  {}", expr_to_source(&stmt.node)));
+                result.push_str(&format!(
+                    "\n  {}",
+                    protect_statement_start(expr_to_source(&stmt.node))
+                ));
                 // Trailing comment
                 if let Some(trailing) = &stmt.trailing {
                     result.push_str(&format!("  {}", trailing));
@@ -332,6 +335,17 @@ pub fn lambda_body_needs_parens(body: &SpannedExpr) -> bool {
     }
 }
 
+/// A statement is continued by a following line that starts with a binary operator, so a
+/// statement whose text starts with a prefix minus would be read as a subtraction from
+/// the statement before it. Parenthesise it.
+pub fn protect_statement_start(source: String) -> String {
+    if source.starts_with('-') {
+        format!("({})", source)
+    } else {
+        source
+    }
+}
+
 /// Wrap `source` in parentheses if `needed`
 fn parenthesize_if(needed: bool, source: String) -> String {
     if needed {
@@ -466,7 +480,7 @@ pub fn expr_to_source_with_scope(
                 // Expression
                 result.push_str(&format!(
                     "\n  {}",
-                    expr_to_source_with_scope(&stmt.node, scope)
+                    protect_statement_start(expr_to_source_with_scope(&stmt.node, scope))
                 ));
                 if let Expr::Assignment { ident, .. } = &stmt.node.node {
                     scope.shift_remove(ident);
